@@ -14,7 +14,8 @@ import (
 // 4.2-b: pure functions.  Model definitions in lean/Model/Path.lean against the Go functions
 // they model, plus the C19 oracle evaluated directly on the implementation.
 
-var alphabet = []string{"/", ".", "a", "b", "ä", "€", "😀", "\\"}
+// "Я" is U+042F: its low byte is '/' (a rune truncated to a byte must not read as a separator)
+var alphabet = []string{"/", ".", "a", "b", "ä", "€", "😀", "\\", "Я"}
 
 // enumStrings calls f on every string over the alphabet with at most maxLen symbols.
 func enumStrings(maxLen int, f func(string)) {
@@ -31,7 +32,8 @@ func enumStrings(maxLen int, f func(string)) {
 	rec("", 0)
 }
 
-var fragments = []string{"a", "b", "c", "app", "app2", "backups", "backups2", "..", ".", "", "ä", "d€", "😀", "x.y", "...", "a b", "\\"}
+var fragments = []string{"a", "b", "c", "app", "app2", "backups", "backups2", "..", ".", "", "ä", "d€", "😀", "x.y", "...", "a b", "\\",
+	"Яb", "aЯ", "Į.", "Ŝ"} // code points whose low byte is '/', '.', '\\'
 
 // randPath builds a path-shaped string: optional root, fragments joined by 1-2 separators,
 // optional trailing separator.
@@ -224,7 +226,7 @@ func streamPure(cfg *Config, res *Result) error {
 	}
 
 	// sorting: sets of distinct cleaned paths, several permutations each
-	names := []string{"a", "b", "ab", "ä", "d€", "a.b", "0", "test", ".config", "-rf", "+x", "#t", "..."}
+	names := []string{"a", "b", "ab", "ä", "d€", "a.b", "0", "test", ".config", "-rf", "+x", "#t", "...", "Я", "aЯb"}
 	for i := 0; i < nSort; i++ {
 		set := map[string]struct{}{}
 		n := 1 + r.Intn(9)
